@@ -3,8 +3,8 @@ from .. import sockio
 
 ID = "C18"
 PROPS = ["theories/Props/C18.vo"]
-PINNED = ["C18_mode_restored", "C18_holds_outside", "C18_refuted_nonblocking_fd_waits",
-          "C18_refuted_connect_eintr_spins", "C18_oracle_meaning"]
+PINNED = ["C18_every_call_returns", "C18_mode_restored", "C18_holds_outside", "C18_refuted_nonblocking_fd_waits",
+          "C18_connect_eintr_refuted_before_repair", "C18_connect_eintr_returns", "C18_oracle_meaning"]
 CASES_MODULE = "Cases.C18"
 AREA = "sockio"
 ISOLATE = False
@@ -13,14 +13,15 @@ LEVEL = "proof"
 SHRINK_KEY = "script"
 RULE = ("one hooked call per case over all ten entry points (the eight byte-moving ones, accept, connect), half of "
         "the cases on a descriptor the caller made non-blocking, with and without SO_*TIMEO, scripts biased to "
-        "would-block answers (EINPROGRESS/EALREADY for connect), injected wait failures, deadlines; observed: "
+        "would-block answers (EINPROGRESS/EALREADY for connect, and an interrupted connect: EINTR), injected wait "
+        "failures, deadlines; observed: "
         "O_NONBLOCK before/after (fcntl), O_NONBLOCK as the kernel sees it during each call, every readiness wait "
         "requested; non-trivial = the MODEL run met a would-block answer, retried, waited or returned -1; "
         "distinct = distinct case")
 TRUSTED = sockio.TRUSTED
 ASSUMPTIONS = sockio.ASSUMPTIONS + [
     "connect: the harness descriptor is a connected socket without pending error (getpeername and SO_ERROR answer 0 "
-    "after a wait); a connect interrupted by a signal (EINTR) makes the real loop spin for ever and is excluded",
+    "after a wait)",
     "plain thread, not a coroutine: the wait is EventLoops::wait_*_event on the real selector"]
 term = sockio.term
 distribution = sockio.distribution
@@ -39,13 +40,14 @@ def gen(rng, tier):
 
 
 LEVEL_TEXT = ("Unbounded Coq theorems about the Gallina transcription of all eight loop sites (six byte-moving loops, "
-              "accept, connect) with the descriptor's O_NONBLOCK flag as state. Full theorem (C18_mode_restored): on "
-              "every exit path, for every script, timeout, wait-failure pattern and both modes, the flag after the call "
-              "equals the flag before. The non-blocking clause (no readiness wait, no kernel call after one that would "
-              "have blocked, -1 with that call's errno) is refuted on the current code, which waits up to the socket "
-              "time limit (C18_refuted_nonblocking_fd_waits, known finding), and proved outside that defect and "
-              "outside connect_eintr_spins (C18_holds_outside). Tied to the Rust code by fcntl(F_GETFL) before/after "
-              "and the wait recorder.")
+              "accept, connect) with the descriptor's O_NONBLOCK flag as state. Full theorems (C18_every_call_returns, "
+              "C18_mode_restored): for every script, timeout, wait-failure pattern and both modes the call returns "
+              "and, on every exit path, the flag after the call equals the flag before. An interrupted connect "
+              "(EINTR), which used to spin for ever (C18_connect_eintr_refuted_before_repair, about the model of the "
+              "old code), is awaited like EINPROGRESS (C18_connect_eintr_returns). The non-blocking clause (no "
+              "readiness wait, no kernel call after one that would have blocked, -1 with that call's errno) is "
+              "refuted on the current code, which waits up to the socket time limit (C18_refuted_nonblocking_fd_waits, known finding), and proved outside that defect "
+              "(C18_holds_outside). Tied to the Rust code by fcntl(F_GETFL) before/after and the wait recorder.")
 LEVEL_NOTE = ("Trusted: Coq kernel + vm_compute; hand transcription validated on generated scripts; the wait recorder "
               "hook; only the plain-thread path is exercised (inside a coroutine the same loop code runs, the wait "
               "suspends the coroutine instead). No axioms.")
